@@ -203,8 +203,8 @@ var jsrSegs = []string{"a", "b", "7", "ab", "x.js", "", "abx7"}
 func PathUniverse(r rm.Router, tier string, small bool) Universe {
 	u := Universe{RMethods: []string{"GET", "POST"}, QMethods: []string{"GET", "POST", "PUT"}}
 	if r == rm.Curly {
-		// CurlyRouter also gets a root path whose token is a variable with a literal suffix
-		u.Tokens, u.Roots, u.Segs = baseTokens, append(append([]string{}, baseRoots...), "/{q}.js"), baseSegs
+		// CurlyRouter also gets root paths whose token is a variable with a literal suffix / prefix
+		u.Tokens, u.Roots, u.Segs = baseTokens, append(append([]string{}, baseRoots...), "/{q}.js", "/pre_{u}"), baseSegs
 	} else {
 		u.Tokens, u.Roots, u.Segs = jsrTokens, baseRoots, jsrSegs
 	}
